@@ -24,26 +24,32 @@
 EXTENDS MatPoly
 
 (* scalar q as d x d BiPoly constant; matrix M as BiPoly constant                 *)
-BConstM(M, N) == BMono(Len(M), N, 0, 0, M)
+BConstM(M_0, N) == Let1(M_0, LAMBDA M :
+ BMono(Len(M), N, 0, 0, M))
 (* embed a scalar (1 x 1) BiPoly into d x d                                       *)
-BEmbed(P, d) == TLCEval([i \in 1..Len(P) |-> [j \in 1..Len(P) |-> MScalar(d, P[i][j][1][1])]])
+BEmbed(P_0, d) == Let1(P_0, LAMBDA P :
+ TLCEval([i \in 1..Len(P) |-> [j \in 1..Len(P) |-> MScalar(d, P[i][j][1][1])]]))
 
 (* beta(R) = sum_k bs[k+1] R^(k+2) for a scalar BiPoly R, truncated               *)
 RECURSIVE BetaOfFrom(_, _, _, _)
-BetaOfFrom(bs, R, Rpow, k) ==   \* Rpow = R^(k+2)
+BetaOfFrom(bs_0, R_0, Rpow_0, k) == Let3(bs_0, R_0, Rpow_0, LAMBDA bs, R, Rpow :
+   \* Rpow = R^(k+2)
   IF k + 1 > Len(bs) \/ k + 2 > BN(R) THEN BZero(1, BN(R))
-  ELSE BAdd(BScale(bs[k + 1], Rpow), BetaOfFrom(bs, R, BMul(Rpow, R), k + 1))
-BetaOf(bs, R) == BetaOfFrom(bs, R, BMul(R, R), 0)
+  ELSE BAdd(BScale(bs[k + 1], Rpow), BetaOfFrom(bs, R, BMul(Rpow, R), k + 1)))
+BetaOf(bs_0, R_0) == Let2(bs_0, R_0, LAMBDA bs, R :
+ BetaOfFrom(bs, R, BMul(R, R), 0))
 
 RECURSIVE RIter(_, _, _, _)
-RIter(bs, N, R, m) ==
+RIter(bs_0, N, R_0, m) == Let2(bs_0, R_0, LAMBDA bs, R :
+
   IF m = 0 THEN R
-  ELSE RIter(bs, N, BAdd(BMono(1, N, 1, 0, S1(Q1)), BIntL(BetaOf(bs, R))), m - 1)
+  ELSE RIter(bs, N, BAdd(BMono(1, N, 1, 0, S1(Q1)), BIntL(BetaOf(bs, R))), m - 1))
 (* R(a', L) through a'^N; bs = <<beta_0, beta_1, ...>> rationals                   *)
 Reexpansion(bs, N) == IF N = 0 THEN BZero(1, 0) ELSE RIter(bs, N, BMono(1, N, 1, 0, S1(Q1)), N)
 
 (* the first coefficients in closed form, as a check of the derivation              *)
-ReexpansionKnown(bs) ==
+ReexpansionKnown(bs_0) == Let1(bs_0, LAMBDA bs :
+
   LET R == Reexpansion(bs, 4)
       b0 == bs[1]
       b1 == bs[2]
@@ -54,59 +60,68 @@ ReexpansionKnown(bs) ==
       /\ c(3, 1) = b1 /\ c(3, 2) = QMul(b0, b0)
       /\ c(4, 1) = b2 /\ c(4, 2) = QMul(QF(5, 2), QMul(b0, b1)) /\ c(4, 3) = QPow(b0, 3)
       /\ \A i \in 0..4 : \A j \in 0..4 :
-            (<<i, j>> \notin {<<1, 0>>, <<2, 1>>, <<3, 1>>, <<3, 2>>, <<4, 1>>, <<4, 2>>, <<4, 3>>}) => c(i, j) = Q0
+            (<<i, j>> \notin {<<1, 0>>, <<2, 1>>, <<3, 1>>, <<3, 2>>, <<4, 1>>, <<4, 2>>, <<4, 3>>}) => c(i, j) = Q0)
 
 (* Gamma = gamma(R) = sum_{k < Len(gs)} gs[k+1] R^(k+1), d x d, through a'^N          *)
 RECURSIVE GammaOfRFrom(_, _, _, _, _)
-GammaOfRFrom(gs, Rd, Rpow, k, N) ==  \* Rpow = Rd^(k+1)
+GammaOfRFrom(gs_0, Rd_0, Rpow_0, k, N) == Let3(gs_0, Rd_0, Rpow_0, LAMBDA gs, Rd, Rpow :
+  \* Rpow = Rd^(k+1)
   IF k + 1 > Len(gs) \/ k + 1 > N THEN BZero(Len(gs[1]), N)
-  ELSE BAdd(BMul(BConstM(gs[k + 1], N), Rpow), GammaOfRFrom(gs, Rd, BMul(Rpow, Rd), k + 1, N))
+  ELSE BAdd(BMul(BConstM(gs[k + 1], N), Rpow), GammaOfRFrom(gs, Rd, BMul(Rpow, Rd), k + 1, N)))
 GammaOfR(gs, bs, N) ==
   LET Rd == BEmbed(Reexpansion(bs, N), Len(gs[1])) IN GammaOfRFrom(gs, Rd, Rd, 0, N)
 
 (* ---- exponentiated scheme: gamma'_j(L) for j = 0..n-1 at order n ----------------- *)
 (* gs = <<gamma_0, .., gamma_(n-1)>> (d x d), value at the rational L                   *)
-C21_GammaPrime(gs, bs, n, l) ==
-  LET G == GammaOfR(gs, bs, n) IN [j \in 1..n |-> BRowEval(G, j, l, 1)]
+C21_GammaPrime(gs_0, bs_0, n, l_0) == Let3(gs_0, bs_0, l_0, LAMBDA gs, bs, l :
+
+  LET G == GammaOfR(gs, bs, n) IN [j \in 1..n |-> BRowEval(G, j, l, 1)])
 
 (* ---- expanded scheme: K(a', L) through a'^(n-1) at order n ----------------------- *)
 RECURSIVE KIter(_, _, _, _)
-KIter(Gam, N, K, m) ==
-  IF m = 0 THEN K ELSE KIter(Gam, N, BAdd(BOne(BD(Gam), N), BIntL(BMul(Gam, K))), m - 1)
+KIter(Gam_0, N, K_0, m) == Let2(Gam_0, K_0, LAMBDA Gam, K :
+
+  IF m = 0 THEN K ELSE KIter(Gam, N, BAdd(BOne(BD(Gam), N), BIntL(BMul(Gam, K))), m - 1))
 PathOrdered(gs, bs, n) ==
   LET N == n - 1
       d == Len(gs[1])
   IN  IF N = 0 THEN BOne(d, 0) ELSE KIter(GammaOfR(gs, bs, N), N, BOne(d, N), N)
 (* coefficients K_0..K_(n-1) at the rational L, padded with zeros to length len           *)
-C21_Kernel(gs, bs, n, l, len) ==
+C21_Kernel(gs_0, bs_0, n, l_0, len) == Let3(gs_0, bs_0, l_0, LAMBDA gs, bs, l :
+
   LET K == PathOrdered(gs, bs, n)
       d == Len(gs[1])
-  IN  [j \in 1..len |-> IF j <= n THEN BRowEval(K, j - 1, l, 1) ELSE MZero(d)]
+  IN  [j \in 1..len |-> IF j <= n THEN BRowEval(K, j - 1, l, 1) ELSE MZero(d)])
 
 (* ---- QED variants ------------------------------------------------------------------ *)
 (* grid g[j+1][k+1] = gamma^(j,k) (d x d), order = <<o0, o1>>                              *)
-QcdTower(g, o0) == [j \in 1..o0 |-> g[j + 1][1]]
-QedTower(g, o1) == [k \in 1..o1 |-> g[1][k + 1]]
+QcdTower(g_0, o0) == Let1(g_0, LAMBDA g :
+ [j \in 1..o0 |-> g[j + 1][1]])
+QedTower(g_0, o1) == Let1(g_0, LAMBDA g :
+ [k \in 1..o1 |-> g[1][k + 1]])
 (* exponentiated: adjusted grid *)
-C21_GammaPrimeQed(g, o0, o1, bs, bsqed, running, l) ==
+C21_GammaPrimeQed(g_0, o0, o1, bs_0, bsqed_0, running, l_0) == Let4(g_0, bs_0, bsqed_0, l_0, LAMBDA g, bs, bsqed, l :
+
   LET gq == C21_GammaPrime(QcdTower(g, o0), bs, o0, l)
       ge == IF running /\ o1 >= 1 THEN C21_GammaPrime(QedTower(g, o1), bsqed, o1, l) ELSE QedTower(g, o1)
   IN  [j \in 1..(o0 + 1) |-> [k \in 1..(o1 + 1) |->
         IF k = 1 /\ j >= 2 THEN gq[j - 1]
         ELSE IF j = 1 /\ k >= 2 THEN ge[k - 1]
-        ELSE g[j][k]]]
+        ELSE g[j][k]]])
 (* expanded: coefficient of a_s^j a_em^k, j = 0..js-1, k = 0..ks-1                          *)
-C21_KernelQed(g, o0, o1, bs, bsqed, running, l, js, ks) ==
+C21_KernelQed(g_0, o0, o1, bs_0, bsqed_0, running, l_0, js, ks) == Let4(g_0, bs_0, bsqed_0, l_0, LAMBDA g, bs, bsqed, l :
+
   LET d == Len(g[1][1])
       kq == C21_Kernel(QcdTower(g, o0), bs, o0, l, js)
       ke == IF running /\ o1 >= 1 THEN C21_Kernel(QedTower(g, o1), bsqed, o1, l, ks)
             ELSE [k \in 1..ks |-> IF k = 1 THEN MId(d) ELSE MZero(d)]
   IN  [j \in 1..js |-> [k \in 1..ks |->
-        IF k = 1 THEN kq[j] ELSE IF j = 1 THEN ke[k] ELSE MZero(d)]]
+        IF k = 1 THEN kq[j] ELSE IF j = 1 THEN ke[k] ELSE MZero(d)]])
 
 (* ---- transcription of the implementation (for B1 and conformance) -------------------- *)
 (* eko.scale_variations.exponentiated.gamma_variation                                     *)
-GammaVariationTranscribed(gs, bs, n, l, Variant) ==
+GammaVariationTranscribed(gs_0, bs_0, n, l_0, Variant) == Let3(gs_0, bs_0, l_0, LAMBDA gs, bs, l :
+
   LET b0 == bs[1]
       b1 == bs[2]
       b2 == bs[3]
@@ -127,10 +142,11 @@ GammaVariationTranscribed(gs, bs, n, l, Variant) ==
         CASE j = 4 -> MAdd(g(3), t3)
           [] j = 3 -> MAdd(g(2), t2)
           [] j = 2 -> MAdd(g(1), t1)
-          [] OTHER -> g(0)]
+          [] OTHER -> g(0)])
 
 (* eko.scale_variations.expanded.variation_as1/2/3 through singlet_variation             *)
-KernelTranscribed(gs, bs, n, l, len, Variant) ==
+KernelTranscribed(gs_0, bs_0, n, l_0, len, Variant) == Let3(gs_0, bs_0, l_0, LAMBDA gs, bs, l :
+
   LET d == Len(gs[1])
       b0 == bs[1]
       b1 == bs[2]
@@ -152,8 +168,10 @@ KernelTranscribed(gs, bs, n, l, len, Variant) ==
           [] j = 2 /\ n >= 2 -> k1
           [] j = 3 /\ n >= 3 -> k2
           [] j = 4 /\ n >= 4 -> k3
-          [] OTHER -> MZero(d)]
+          [] OTHER -> MZero(d)])
 
-SeqMEq(s, t) == Len(s) = Len(t) /\ \A k \in 1..Len(s) : MEq(s[k], t[k])
-SeqFirstDiff(s, t) == CHOOSE k \in 1..Len(s) : ~MEq(s[k], t[k]) /\ \A m \in 1..(k - 1) : MEq(s[m], t[m])
+SeqMEq(s_0, t_0) == Let2(s_0, t_0, LAMBDA s, t :
+ Len(s) = Len(t) /\ \A k \in 1..Len(s) : MEq(s[k], t[k]))
+SeqFirstDiff(s_0, t_0) == Let2(s_0, t_0, LAMBDA s, t :
+ CHOOSE k \in 1..Len(s) : ~MEq(s[k], t[k]) /\ \A m \in 1..(k - 1) : MEq(s[m], t[m]))
 =============================================================================
